@@ -209,6 +209,7 @@ func stageE2(driverPath string, sel map[string]bool) stageResult {
 		}
 		bad := 0
 		badR := map[rune]bool{}
+		var hist []histMismatch
 		for _, r := range sample {
 			aggr := []rune{r ^ 0x100000, r ^ 0x80000, r ^ 0x40000, r ^ 0x20000, r ^ 0x10000, r ^ 0x8000, r + 1, r - 1, 0, 0x378, 0x10FFFF, r & 0xFFFF, r & 0xFFF, r & 0xFF, r | 0x100000}
 			for pl := rune(0); pl <= 0x10; pl++ {
@@ -220,15 +221,34 @@ func stageE2(driverPath string, sel map[string]bool) stageResult {
 				}
 				f(a)
 				s.Evaluations++
-				if v := f(r); v != truth[r] && bad < 40 && !badR[r] {
+				if v := f(r); v != truth[r] && bad < 20000 && !badR[r] {
 					bad++
 					badR[r] = true
-					s.add(fmt.Sprintf("lookup %s %d after %d", n, r, a), fmt.Sprint(v), fmt.Sprint(truth[r]), fmt.Sprintf("the lookup of U+%04X depends on the previous lookup (U+%04X)", r, a))
+					hist = append(hist, histMismatch{fmt.Sprintf("lookup %s %d after %d", n, r, a), fmt.Sprint(v), fmt.Sprint(truth[r]), fmt.Sprintf("the lookup of U+%04X depends on the previous lookup (U+%04X)", r, a)})
 				}
 			}
 		}
+		addThinned(&s, hist, 24)
 	}
 	return s
+}
+
+type histMismatch struct{ op, real, model, note string }
+
+// addThinned reports at most max of the history mismatches, evenly spread over the code space (the search
+// builds texts from them, and the ones that matter for a given property may be anywhere)
+func addThinned(s *stageResult, hist []histMismatch, max int) {
+	step := 1
+	if len(hist) > max {
+		step = len(hist) / max
+	}
+	for i := 0; i < len(hist); i += step {
+		h := hist[i]
+		s.add(h.op, h.real, h.model, h.note)
+	}
+	if n := len(hist); n > 0 {
+		s.MismatchCount += n - (n+step-1)/step
+	}
 }
 
 func firstDiffRange(a, b []string) [2]string {
@@ -566,7 +586,13 @@ func stageE3b(thorough bool) stageResult {
 			res := &results[w]
 			for i := w; i < len(cps); i += nw {
 				r := cps[i]
-				rep := ci.reps[sigOf(r)][0]
+				rs := ci.reps[sigOf(r)]
+				if len(rs) == 0 {
+					// the lookups give r a class signature no code point had during the class scan: they depend on history
+					res.add(fmt.Sprintf("sig %d", r), "a class signature unknown to the class scan", "the signature found by the class scan", fmt.Sprintf("the lookups of U+%04X changed since the class scan (they depend on earlier calls)", r))
+					continue
+				}
+				rep := rs[0]
 				if rep == r {
 					continue
 				}
@@ -1307,6 +1333,7 @@ func stageRW(driverPath string, amb int) stageResult {
 	}
 	bad := 0
 	badR := map[rune]bool{}
+	var hist []histMismatch
 	otherClass := []int{c("prExtendedPictographic"), c("prAny"), c("prExtend")}
 	for _, r := range sample {
 		p := u.VerifPropertyGraphemes(r)
@@ -1336,13 +1363,14 @@ func stageRW(driverPath string, amb int) stageResult {
 		for _, a := range aggr {
 			u.VerifRuneWidth(a.r, a.p)
 			s.Evaluations++
-			if v := u.VerifRuneWidth(r, p); v != want && bad < 40 && !badR[r] {
+			if v := u.VerifRuneWidth(r, p); v != want && bad < 20000 && !badR[r] {
 				bad++
 				badR[r] = true
-				s.add(fmt.Sprintf("rw-after %d %d %d %d", r, p, a.r, a.p), fmt.Sprint(v), fmt.Sprint(want), fmt.Sprintf("runeWidth(U+%04X) depends on the previous call (U+%04X, class %d)", r, a.r, a.p))
+				hist = append(hist, histMismatch{fmt.Sprintf("rw-after %d %d %d %d", r, p, a.r, a.p), fmt.Sprint(v), fmt.Sprint(want), fmt.Sprintf("runeWidth(U+%04X) depends on the previous call (U+%04X, class %d)", r, a.r, a.p)})
 			}
 		}
 	}
+	addThinned(&s, hist, 24)
 	s.Samples = []string{"runeWidth(U+4E16, prAny) = " + fmt.Sprint(u.VerifRuneWidth(0x4E16, 1))}
 	return s
 }
